@@ -269,6 +269,14 @@ func (c *Ctx) genC11(i int, risky bool) c11File {
 			decl = fmt.Sprintf("(r *T) M%d(x interface{ F(int) string }, n int)", t)
 			f.features = append(f.features, "receiver")
 		}
+		if r.Intn(3) == 0 {
+			// the usual layout of a long signature: one parameter per line
+			decl = fmt.Sprintf("T%d(\n\ta string,\n\tf func(int) (int, error),\n)", t)
+			if t == 1 {
+				decl = fmt.Sprintf("(r *T) M%d(\n\tx interface{ F(int) string },\n\tn int,\n)", t)
+			}
+			f.features = append(f.features, "multi-line-declaration")
+		}
 		f.decls = append(f.decls, decl)
 		w("@goht " + decl + " {\n\t%p= a\n\t%hr\n}\n\n")
 	}
@@ -375,21 +383,21 @@ func c11(c *Ctx) {
 		}
 		// Go lines: strip header, import lines and template functions, compare the non-blank lines in order
 		body := out
+		// cut the generated template functions out (their declarations may span lines)
+		for _, d := range f.decls {
+			head := "\nfunc " + d + " goht.Template {\n"
+			if k := strings.Index(body, head); k >= 0 {
+				if e := strings.Index(body[k+len(head):], "\n}\n"); e >= 0 {
+					body = body[:k+1] + body[k+len(head)+e+3:]
+				}
+			}
+		}
 		var gotLines []string
-		skipping := false
 		for li, l := range strings.Split(body, "\n") {
 			if li < 3 { // header comment
 				continue
 			}
 			switch {
-			case skipping:
-				if l == "}" {
-					skipping = false
-				}
-				continue
-			case strings.HasSuffix(l, " goht.Template {") && strings.HasPrefix(l, "func "):
-				skipping = true
-				continue
 			case strings.HasPrefix(l, "package ") && strings.TrimPrefix(l, "package ") == f.pkg,
 				strings.HasPrefix(l, "import "), l == ")" && len(gotLines) == 0:
 				continue
